@@ -89,7 +89,8 @@ PROPS["C05"] = dict(
           "P2SH scripts, hashed passphrase, derived-key cache) nil or zero. Non-trivial = lock after a private-key access, a wrong-passphrase unlock, and a passphrase change or restart."),
     assumptions=_MGR_ASSUME + ["clear text of witness/taproot script addresses is reported as an observation only (the statement speaks of private keys)",
                                "DeriveFromKeyPathCache while locked must fail and return no key; the error class is not asserted"],
-    units=[dict(name="lockstate", run="^TestC05LockState$", quick=2500, thorough=3000, shards_quick=2, shards_thorough=16, timeout=1500)],
+    units=[dict(name="lockstate", run="^TestC05LockState$", quick=2500, thorough=3000, shards_quick=2, shards_thorough=16, timeout=1500),
+           dict(name="wallet", run="^TestC05WalletLevel$", quick=300, thorough=2000, shards_quick=1, shards_thorough=16, timeout=1500)],
 )
 PROPS["C08"] = dict(
     pkg="c08", level="exploration",
